@@ -16,6 +16,7 @@ pub mod c12;
 pub mod c13;
 pub mod c14;
 pub mod c15;
+pub mod c16;
 pub mod c17;
 pub mod c18;
 
@@ -50,6 +51,7 @@ macro_rules! table {
             "C13" => $f(&c13::C13, $arg),
             "C14" => $f(&c14::C14, $arg),
             "C15" => $f(&c15::C15, $arg),
+            "C16" => $f(&c16::C16, $arg),
             "C17" => $f(&c17::C17, $arg),
             "C18" => $f(&c18::C18, $arg),
             other => {
